@@ -105,5 +105,40 @@ def run_seq(c):
     return {'results': res}
 
 
+def run_csvseq(c):
+    """consecutive rbql.query_csv runs in ONE interpreter, each with its own directory holding in.csv and a join file of the
+    same relative name jt.csv (resolved relative to the input file): every run must see ITS files"""
+    import os
+    import shutil
+    import tempfile
+    root = tempfile.mkdtemp(prefix='c16_', dir=os.environ.get('VERIF_SCRATCH'))
+    res = []
+    try:
+        for i, run in enumerate(c['runs']):
+            d = os.path.join(root, 'd%d' % i)
+            os.makedirs(d)
+            with open(os.path.join(d, 'in.csv'), 'w', encoding='utf-8') as f:
+                f.write(''.join(','.join(r) + '\n' for r in run['A']))
+            if run.get('B') is not None:
+                with open(os.path.join(d, 'jt.csv'), 'w', encoding='utf-8') as f:
+                    f.write(''.join(','.join(r) + '\n' for r in run['B']))
+            outp = os.path.join(d, 'out.csv')
+            err = None
+            try:
+                rbql.query_csv(run['q'], os.path.join(d, 'in.csv'), ',', 'simple', outp, ',', 'simple', 'utf-8', [], False)
+            except Exception as e:
+                err = EN.canon_error(e)
+            rows = None
+            if err is None:
+                with open(outp, encoding='utf-8') as f:
+                    rows = [l.split(',') for l in f.read().split('\n')[:-1]]
+            res.append({'rows': rows, 'error': err})
+    finally:
+        shutil.rmtree(root, ignore_errors=True)
+    return {'results': res}
+
+
 def run_case(c):
+    if c['mode'] == 'csvseq':
+        return run_csvseq(c)
     return run_inter(c) if c['mode'] == 'inter' else run_seq(c)
